@@ -107,22 +107,38 @@ pub fn execute(row: &Value, variant: usize) -> Result<Value, String> {
   match s(&row["kind"]) {
     "parse" => {
       let input = parse_input(row, variant);
-      let a = Timestamp::parse(&input);
-      // every textual entry point must agree
-      let b2: Result<Timestamp, _> = input.parse();
-      let c = Timestamp::try_from(input.as_str());
-      let d = Timestamp::from_json_value(json!(input));
-      if a.is_ok() != b2.is_ok() || a.is_ok() != c.is_ok() || a.is_ok() != d.is_ok() {
-        return Err(format!("parse/FromStr/TryFrom/serde disagree on {input}"));
-      }
-      match a {
-        Ok(t) => {
-          if b2.ok() != Some(t) || d.ok() != Some(t) {
-            return Err(format!("entry points yield different values for {input}"));
+      // every textual entry point, judged on its own: it either fails or yields the denoted instant
+      let results: Vec<(&str, Option<Timestamp>)> = vec![
+        ("parse", Timestamp::parse(&input).ok()),
+        ("from_str", input.parse::<Timestamp>().ok()),
+        ("try_from", Timestamp::try_from(input.as_str()).ok()),
+        ("serde", Timestamp::from_json_value(json!(input)).ok()),
+      ];
+      let mut first: Option<Value> = None;
+      let mut refused: Vec<&str> = Vec::new();
+      for (name, r) in &results {
+        match r {
+          Some(t) => {
+            let o = observe(*t)?;
+            if let Some(f) = &first {
+              if f != &o {
+                return Err(format!("entry points yield different values for {input} ({name})"));
+              }
+            } else {
+              first = Some(o);
+            }
           }
-          observe(t)
+          None => refused.push(name),
         }
-        Err(_) => Ok(no),
+      }
+      match first {
+        Some(mut o) => {
+          if !refused.is_empty() {
+            o["refused_by"] = json!(refused);
+          }
+          Ok(o)
+        }
+        None => Ok(no),
       }
     }
     "unix" => match Timestamp::from_unix(inst(&row["i"])) {
@@ -156,6 +172,11 @@ pub fn execute(row: &Value, variant: usize) -> Result<Value, String> {
 }
 
 fn conforms(expected: &Value, got: &Value) -> bool {
+  let mut got = got.clone();
+  if let Some(o) = got.as_object_mut() {
+    o.remove("refused_by");
+  }
+  let got = &got;
   if expected["acc"] == json!("leap") {
     // named deviation LeapSecondStandIn: rejected, or accepted as the preceding second
     return got["acc"] == json!("no") || got == &expected["alt"];
@@ -179,7 +200,12 @@ fn replay_chunk(cases: &[Value], rep: &mut Report) {
         Ok(Err(e)) => rep.mismatch(&format!("timestamp/{kind}/law"), &ctx, case["out"].clone(), json!(e), "round trip / agreement law"),
         Ok(Ok(got)) => {
           if !conforms(&case["out"], &got) {
-            rep.mismatch(&format!("timestamp/{kind}"), &ctx, case["out"].clone(), got, "outcome differs from the calendar oracle");
+            // "either fails or yields the instant it denotes": refusing a valid string is allowed by the property
+            let one_sided = kind == "parse" && case["out"]["acc"] == json!("yes") && got["acc"] == json!("no");
+            let key = if one_sided { format!("timestamp/~{kind}_refused_valid") } else { format!("timestamp/{kind}") };
+            rep.mismatch(&key, &ctx, case["out"].clone(), got, "outcome differs from the calendar oracle");
+          } else if got.get("refused_by").is_some() {
+            rep.mismatch(&format!("timestamp/~{kind}_entry_points_disagree"), &ctx, case["out"].clone(), got, "some entry points refuse a string others accept");
           }
         }
       }
@@ -232,7 +258,12 @@ pub fn record(seed: u64, n: u64, out: &mut TraceOut) {
     let got = match guarded(|| execute(&row, 0)) {
       Err(p) => json!({"acc": "panic", "msg": p}),
       Ok(Err(e)) => json!({"acc": "law-broken", "msg": e}),
-      Ok(Ok(v)) => v,
+      Ok(Ok(mut v)) => {
+        if let Some(o) = v.as_object_mut() {
+          o.remove("refused_by"); // entry points judged one by one; the trace carries the instant
+        }
+        v
+      }
     };
     out.event(json!({"row": row, "out": got}));
   }
